@@ -16,5 +16,5 @@ for d in "$@"; do
   git -C /repo worktree remove --force $WT; rm -rf $OUT
   nv=$(echo "$out" | grep -c '^VIOLATION')
   echo "$id ($prop): exit=$rc violations=$nv $((e-s))s"
-  echo "$out" | grep '^VIOLATION' | sed 's/replay=[^ ]* //' | cut -c1-220 | head -5
+  echo "$out" | grep '^VIOLATION' | sed 's/replay=[^ ]* //' | cut -c1-220 | head -${SEEDWT_FULL:+4}5
 done
